@@ -7,6 +7,14 @@ NOTE = ("Trusted: z3 5.1, CrossHair 0.0.110 proxy semantics, the model extension
         "listed in the evidence file (coverage.stubs) and the reference oracle in the check module. "
         "Holds only within the bounds printed in coverage.cells[*].bounds.")
 CHECKS = {
+    "C01": ("2 (C01)", "Codec.encode -> Codec.decode on messages whose field values, tags, counters and CompIDs are solver variables; one cell per "
+                  "repeating group of the live protocol table and item shape, per encoding mode; each cell's path tree is exhausted, "
+                  "so the round trip holds for every value within the stated length/digit bounds."),
+    "C02": ("2 (C02)", "Every frame produced by Codec.encode (+utf-8, as send_msg does) and by send_msg itself for symbolic field values up "
+                  "to code point 0x7ff is passed through an independent reference framer; exhausted per cell."),
+    "C10": ("2 (C10)", "Codec.decode(silent=True) on fully symbolic buffers, grammar-shaped buffers with symbolic field contents over all 256 "
+                  "byte values, and every single-byte substitution/deletion/insertion of valid frames; live-reader cells drive the real "
+                  "socket_read_task over malformed input followed by valid frames."),
     "C16": ("5", "Every path of change_status / can_cancel / can_replace / is_finished over symbolic status, kind, ExecType and "
                   "reported-status strings (length <= 2) and both error modes is explored until z3 proves no branch is left: "
                   "the whole finite enum domain plus every non-member string of that length."),
